@@ -85,9 +85,11 @@ REGISTRY.update({
                 theorems=["C09_recover_holds", "C09_rounding_holds", "C09_linear_shape_holds", "C09_convexe_shape_holds"],
                 corr=["rec.status", "rec.dmg", "rec.hdmg", "rec.arb", "sched.status", "delta.total", "create.dmg0", "create.hdmg0", "create.arb0"],
                 monitors=[M.mon_c09], extra=X.extra_c09),
-    "C10": dict(**_p(EV_FILES + ["Proofs/C10Proofs.v", "Proofs/C10SessionProofs.v"], ["Props/C10.v"], ["Phases", "Arb"]),
+    "C10": dict(**_p(EV_FILES + ["Proofs/C10Proofs.v", "Proofs/C10SessionProofs.v", "Spec/StatementsInit.v", "Spec/StatementsLate.v",
+                                "Proofs/C16Proofs.v", "Proofs/C10LateRunProofs.v"], ["Props/C10.v"], ["Phases", "Arb"]),
                 theorems=["C10_activate_holds", "C10_start_holds", "C10_ledgers_monotone_holds", "C10_step_monotone_holds",
-                          "C10_prefix_holds", "C10_session_holds", "C10_late_registration_holds", "C10_late_registration_any_id_refuted"],
+                          "C10_prefix_holds", "C10_session_holds", "C10_late_registration_holds", "C10_late_registration_any_id_refuted",
+                          "C10_late_run_holds", "C10_late_creation_holds"],
                 corr=["sched.status", "sched.rid", "sched.count", "delta.total", "rec.status", "reb.status",
                       "reg.status", "reg.rid", "reg.dmg", "reg.hdmg", "reg.arb", "reg.ledger_i", "reg.ledger_h", "reg.fresh",
                       "create.accept", "create.schedule", "create.status", "create.rid",
